@@ -799,8 +799,17 @@ def routing_bits(repo, col):
             else:
                 terms.append(n)
         from .dataflow import single_defs, expand
+        from .core import attr_constants, expand_attrs
         ntab = single_defs(nx.node)
-        flat(expand(rets[-1], ntab))
+        atab = attr_constants(repo, repo.cls("sharded_file_accessor",
+                                             "MiniShard"))
+        # attributes that only name an expression over the shard spec
+        # (self._low_shift = shard_spec.preshift_bits) are expanded; the
+        # routing bits and the counter keep their names
+        atab = {k: v for k, v in atab.items()
+                if k not in ("masked_bits", "shard_spec") and
+                "shard_spec" in norm(v)}
+        flat(expand_attrs(expand(rets[-1], ntab), atab))
         t = [norm(x) for x in terms]
         hi = [x for x in terms if isinstance(x, ast.BinOp)
               and isinstance(x.op, ast.LShift)]
@@ -826,9 +835,21 @@ def routing_bits(repo, col):
                                    "self.shard_spec.minishard_bits") and \
                 norm(h.left) == "%s >> self.shard_spec.preshift_bits" % cnt
         ok = len(terms) == 3 and okhi and bool(lo) and bool(mid)
-    col.add(rule + ".next-id", nx, "three disjoint bit ranges", ok,
+        # positively wrong: the recognised high part is shifted by something
+        # else than p + s + m, or the low part is masked with another mask
+        spec_only = bool(hi) and not (
+            names_in(hi[0].right) - {"self", "np", "numpy", "int"}) and \
+            "shard_spec." in norm(hi[0].right)
+        wrong_hi = bool(hi) and not okhi and spec_only and \
+            norm(hi[0].left).startswith(cnt)
+        wrong_lo = any(x.startswith("%s & " % cnt) or
+                       x.endswith(" & %s" % cnt) for x in t) and not lo
+        nid_und = not ok and not wrong_hi and not wrong_lo
+    else:
+        nid_und = True
+    col.add(rule + ".next-id", nx, "three disjoint bit ranges", ok or nid_und,
             "high part [p+m+s, ..), fixed routing bits [p, p+m+s), low part "
-            "[0, p)" if ok else detail, undecided=not rets)
+            "[0, p)" if ok else detail, undecided=nid_und and not ok)
     st = repo.func("sharded_file_accessor", "MiniShard.store_cmc_chunk", inline=True)
     want_mb = "(self.shard_spec.minishard_mask | self.shard_spec.shard_mask) " \
         "<< self.shard_spec.preshift_bits & cmc"
